@@ -256,7 +256,8 @@ def main():
         M.clear()
         for d in sorted(glob.glob(f"{VERIF}/benign/*/")):
             meta = json.load(open(d + "meta.json"))
-            M.append(dict(name="benign-agent:" + os.path.basename(d.rstrip("/")), props=[], run=ALL, edits=[], patch=d + "patch.diff", note=meta.get("summary", ""), benign=True))
+            only = [c for c in os.environ.get("SENS_ONLY", "").split(",") if c] or ALL  # SENS_ONLY=C04,C09: restrict the checks that are run
+            M.append(dict(name="benign-agent:" + os.path.basename(d.rstrip("/")), props=[], run=only, edits=[], patch=d + "patch.diff", note=meta.get("summary", ""), benign=True))
     todo = [m for m in M if not args or any(a in m["name"] for a in args)]
     for m in todo:
         sh("git checkout -- . && git clean -fdq", cwd=REPO)
